@@ -74,8 +74,9 @@ def tie_explains(base, other, measure):
 
 
 def threshold_explains(base, other, X, quant, qual, cfg):
-    """True when every feature present in only one of the two selections has an association with another
-    feature of its type that equals thresh_corr within 1e-9."""
+    """True when a feature present in only one of the two selections has an association with another feature
+    of its type that equals thresh_corr within 1e-9 (its own filtering verdict then depends on rounding, and
+    the remaining differences follow from the n_best cut)."""
     differing = set(base) ^ set(other)
     if not differing:
         return False
@@ -93,9 +94,9 @@ def threshold_explains(base, other, X, quant, qual, cfg):
             if not math.isnan(c) and abs(c - cfg["thresh_corr"]) <= 1e-9:
                 hit = True
                 break
-        if not hit:
-            return False
-    return True
+        if hit:
+            return True  # the other differing features follow from the n_best cut
+    return False
 
 
 def check_case(case) -> Outcome:
